@@ -1,6 +1,8 @@
 import ComposeVerif.Lemmas.C11Top
 import ComposeVerif.Lemmas.C11Shape
 import ComposeVerif.Lemmas.C11Walk
+import ComposeVerif.Lemmas.C11Perm
+import ComposeVerif.Lemmas.PathsClean
 import ComposeVerif.Neg.C11
 import ComposeVerif.Lemmas.AuditCmd
 import ComposeVerif.Lemmas.Path
@@ -210,18 +212,28 @@ example : setDefaults CV.Gen.defaultValues ["services", "web", "ports"] (.seq [.
 
 /-! ## 4. `Normalize`: outcome, and each default as specified -/
 
-/-- `Normalize` panics exactly when one of its unchecked type assertions fails (the three shape predicates),
-and otherwise returns the pure normal form -/
+/-- `Normalize` returns an error exactly when one of its (now checked) type assertions fails (the three shape
+predicates, in the order the three functions run), and otherwise returns the pure normal form -/
 theorem normalize_outcome (clean : String → String) (env : Env) (d : KVs) :
     (shapeNN d = true ∧ shapeServices d = true ∧ shapeNames d = true →
       normalize clean env d = .ok (normalizePure clean env d)) ∧
-    (shapeNN d = false → normalize clean env d = .panic "loader.normalizeNetworks") ∧
-    (shapeNN d = true → shapeServices d = false → normalize clean env d = .panic "loader.Normalize") ∧
+    (shapeNN d = false → normalize clean env d = .err "normalizeNetworks") ∧
+    (shapeNN d = true → shapeServices d = false → normalize clean env d = .err "Normalize") ∧
     (shapeNN d = true → shapeServices d = true → shapeNames d = false →
-      normalize clean env d = .panic "loader.setNameFromKey") := by
+      normalize clean env d = .err "setNameFromKey") := by
   unfold normalize
   refine ⟨fun ⟨h1, h2, h3⟩ => by simp [h1, h2, h3], fun h1 => by simp [h1], fun h1 h2 => by simp [h1, h2],
     fun h1 h2 h3 => by simp [h1, h2, h3]⟩
+
+/-- after the /repo repairs no input makes `Normalize` panic -/
+theorem normalize_never_panics (clean : String → String) (env : Env) (d : KVs) (site : String) :
+    normalize clean env d ≠ .panic site := by
+  unfold normalize
+  split
+  · simp
+  · split
+    · simp
+    · split <;> simp
 
 /-- a service without `network_mode` and without (or with empty) `networks` joins `default` -/
 theorem service_joins_default (s : KVs) (hm : lookup "network_mode" s = none)
@@ -514,6 +526,213 @@ example : normalize id [] [("name", .str "p"), ("services", .map [("a", .map [("
          ("services", .map [("a", .map [("links", .seq [.str "b"]), ("networks", defaultNet), ("depends_on", .map [("b", depEntry true)])]),
                             ("b", .map [("networks", defaultNet)])]),
          ("networks", .map [("default", .map [("name", .str "p_default")])])] := by rfl
+
+/-! ## 6. Go's map iteration order: permuted input, permuted output (values identical) -/
+
+/-- the order of a service's attributes does not matter to the loop body -/
+theorem normService_order_irrelevant (clean : String → String) (env : Env) (s s' : KVs) (hn : KeysNodup s)
+    (hp : s'.Perm s) : (normService clean env s').Perm (normService clean env s) :=
+  normService_perm clean env hn hp
+
+theorem nnService_order_irrelevant (s s' : KVs) (hn : KeysNodup s) (hp : s'.Perm s) :
+    (nnService s').Perm (nnService s) := nnService_perm hn hp
+
+/-- the order in which Go ranges over `services` does not matter: same decision about the `default` network,
+and the normalised services are the same entries in the permuted order -/
+theorem services_order_irrelevant (clean : String → String) (env : Env) (svcs svcs' : KVs) (hp : svcs'.Perm svcs) :
+    (svcs'.any fun kv => svcJoinsDefault kv.2) = (svcs.any fun kv => svcJoinsDefault kv.2) ∧
+    (mapVals (normServiceV clean env) (mapVals nnServiceV svcs')).Perm
+      (mapVals (normServiceV clean env) (mapVals nnServiceV svcs)) ∧
+    (svcs'.all fun kv => shapeService kv.2) = (svcs.all fun kv => shapeService kv.2) :=
+  ⟨any_perm _ hp, mapVals_perm _ (mapVals_perm _ hp), all_perm _ hp⟩
+
+/-- the order in which `setNameFromKey` ranges over a resource section does not matter -/
+theorem resources_order_irrelevant (pj : Option Val) (top top' : KVs) (hp : top'.Perm top) :
+    (mapAt (nameResource pj) top').Perm (mapAt (nameResource pj) top) := mapAt_perm _ hp
+
+/-- **`Normalize` does not depend on the order of the top-level entries**: same error, or results that are
+permutations of one another with identical values -/
+theorem normalize_order_irrelevant (clean : String → String) (env : Env) (d d' : KVs) (hn : KeysNodup d)
+    (hp : d'.Perm d) :
+    (∀ e, normalize clean env d = .ok e → ∃ e', normalize clean env d' = .ok e' ∧ e'.Perm e) ∧
+    (∀ cls, normalize clean env d = .err cls → normalize clean env d' = .err cls) := by
+  obtain ⟨h1, h2, h3⟩ := shapes_perm hn hp
+  unfold normalize
+  rw [h1, h2, h3]
+  constructor
+  · intro e he
+    cases a : shapeNN d <;> cases b : shapeServices d <;> cases c : shapeNames d <;> simp [a, b, c] at he ⊢
+    subst he
+    exact normalizePure_perm clean env hn hp
+  · intro site hs
+    cases a : shapeNN d <;> cases b : shapeServices d <;> cases c : shapeNames d <;> simp [a, b, c] at hs ⊢ <;> exact hs
+
+example : KeysNodup [("name", .str "p"), ("services", .map [])] := by unfold KeysNodup; decide
+
+/-! ## 7. more of `Canonical`: the two transformers with a defaulting half are idempotent -/
+
+theorem transformEnvFile_idem (v v' : Val) (h : transformEnvFile v = .ok v') : transformEnvFile v' = .ok v' := by
+  cases v with
+  | str s => simp only [transformEnvFile, Out.ok.injEq] at h; subst h; rfl
+  | seq xs =>
+    simp only [transformEnvFile, Out.ok.injEq] at h
+    subst h
+    simp [transformEnvFile, List.map_map, Function.comp_def, env_file_value_idem]
+  | _ => simp [transformEnvFile] at h
+
+theorem transformDependsOn_idem (v v' : Val) (h : transformDependsOn v = .ok v') : transformDependsOn v' = .ok v' := by
+  cases v with
+  | map kvs =>
+    simp only [transformDependsOn] at h
+    split at h
+    · rename_i hall
+      simp only [Out.ok.injEq] at h
+      subst h
+      have hall' : ((kvs.map fun kv => (kv.1, depDefaultsV kv.2)).all fun kv => isMap kv.2) = true := by
+        simp only [List.all_map, List.all_eq_true, Function.comp] at hall ⊢
+        intro kv hkv
+        have := hall kv hkv
+        cases hv : kv.2 <;> simp [hv, isMap, depDefaultsV] at this ⊢
+      simp only [transformDependsOn, hall', if_true, List.map_map, Out.ok.injEq, Val.map.injEq]
+      apply List.map_congr_left
+      intro kv _
+      cases hv : kv.2 <;> simp [Function.comp, hv, depDefaultsV, depends_on_defaults_idem]
+    · cases h
+  | seq xs =>
+    simp only [transformDependsOn] at h
+    split at h
+    · simp only [Out.ok.injEq] at h
+      subst h
+      -- every entry of the result is the (complete) short-form entry
+      have inv : ∀ (l : List Val) (acc : KVs), (∀ e ∈ acc, e.2 = shortDep) →
+          ∀ e ∈ l.foldl (fun acc x => Val.insert (strOf x) shortDep acc) acc, e.2 = shortDep := by
+        intro l
+        induction l with
+        | nil => intro acc h; exact h
+        | cons x r ih =>
+          intro acc hacc
+          apply ih
+          intro e he
+          rcases mem_insert he with h1 | h1
+          · rw [h1]
+          · exact hacc e h1
+      have hres := inv xs [] (by simp)
+      generalize xs.foldl (fun acc x => Val.insert (strOf x) shortDep acc) [] = res at hres
+      have hall : (res.all fun kv => isMap kv.2) = true := by
+        simp only [List.all_eq_true]
+        intro kv hkv
+        rw [hres kv hkv]; rfl
+      simp only [transformDependsOn, hall, if_true, Out.ok.injEq, Val.map.injEq]
+      conv => rhs; rw [← List.map_id res]
+      apply List.map_congr_left
+      intro kv hkv
+      have : depDefaultsV kv.2 = kv.2 := by rw [hres kv hkv]; rfl
+      simp [this]
+    · cases h
+  | _ => simp [transformDependsOn] at h
+
+theorem canonSvcAttrs_idem : ∀ (s s' : List (String × Val)), canonSvcAttrs s = .ok s' → canonSvcAttrs s' = .ok s'
+  | [], s', h => by simp only [canonSvcAttrs, Out.ok.injEq] at h; subst h; rfl
+  | (k, v) :: r, s', h => by
+    simp only [canonSvcAttrs] at h
+    by_cases h1 : k = "depends_on"
+    · simp only [h1, if_true] at h
+      cases hv : transformDependsOn v with
+      | ok w =>
+        simp only [hv] at h
+        cases hr : canonSvcAttrs r with
+        | ok r' =>
+          simp only [hr, Out.ok.injEq] at h
+          subst h
+          simp [canonSvcAttrs, h1, transformDependsOn_idem v w hv, canonSvcAttrs_idem r r' hr]
+        | err e => simp [hr] at h
+        | panic p => simp [hr] at h
+      | err e => simp [hv] at h
+      | panic p => simp [hv] at h
+    · by_cases h2 : k = "env_file"
+      · simp only [h2, show ("env_file" = "depends_on") = False by simp, if_false, if_true] at h
+        cases hv : transformEnvFile v with
+        | ok w =>
+          simp only [hv] at h
+          cases hr : canonSvcAttrs r with
+          | ok r' =>
+            simp only [hr, Out.ok.injEq] at h
+            subst h
+            simp [canonSvcAttrs, h2, transformEnvFile_idem v w hv, canonSvcAttrs_idem r r' hr]
+          | err e => simp [hr] at h
+          | panic p => simp [hr] at h
+        | err e => simp [hv] at h
+        | panic p => simp [hv] at h
+      · simp only [h1, h2, if_false] at h
+        cases hr : canonSvcAttrs r with
+        | ok r' =>
+          simp only [hr, Out.ok.injEq] at h
+          subst h
+          simp [canonSvcAttrs, h1, h2, canonSvcAttrs_idem r r' hr]
+        | err e => simp [hr] at h
+        | panic p => simp [hr] at h
+
+theorem canonServices_idem : ∀ (m m' : List (String × Val)), canonServices m = .ok m' → canonServices m' = .ok m'
+  | [], m', h => by simp only [canonServices, Out.ok.injEq] at h; subst h; rfl
+  | (k, v) :: r, m', h => by
+    cases v with
+    | map s =>
+      simp only [canonServices] at h
+      cases hs : canonSvcAttrs s with
+      | ok s2 =>
+        simp only [hs] at h
+        cases hr : canonServices r with
+        | ok r' =>
+          simp only [hr, Out.ok.injEq] at h
+          subst h
+          simp [canonServices, canonSvcAttrs_idem s s2 hs, canonServices_idem r r' hr]
+        | err e => simp [hr] at h
+        | panic p => simp [hr] at h
+      | err e => simp [hs] at h
+      | panic p => simp [hs] at h
+    | _ =>
+      simp only [canonServices] at h
+      cases hr : canonServices r with
+      | ok r' =>
+        simp only [hr, Out.ok.injEq] at h
+        subst h
+        simp [canonServices, canonServices_idem r r' hr]
+      | err e => simp [hr] at h
+      | panic p => simp [hr] at h
+
+/-- **the modelled part of `Canonical` is idempotent**: a model whose `depends_on` / `env_file` are already in long
+form with every default written out is left as it is -/
+theorem canonicalLite_idem (d : KVs) (v' : Val) (h : canonicalLite d = .ok v') :
+    ∃ d', v' = .map d' ∧ canonicalLite d' = .ok (.map d') := by
+  unfold canonicalLite at h
+  cases hl : lookup "services" d with
+  | none => simp only [hl, Out.ok.injEq] at h; subst h; exact ⟨d, rfl, by simp [canonicalLite, hl]⟩
+  | some sv =>
+    cases sv with
+    | map svcs =>
+      simp only [hl] at h
+      cases hc : canonServices svcs with
+      | ok s' =>
+        simp only [hc, Out.ok.injEq] at h
+        subst h
+        refine ⟨_, rfl, ?_⟩
+        simp [canonicalLite, lookup_insert_self, canonServices_idem svcs s' hc, insert_insert]
+      | err e => simp [hc] at h
+      | panic p => simp [hc] at h
+    | _ => simp only [hl, Out.ok.injEq] at h; subst h; exact ⟨d, rfl, by simp [canonicalLite, hl]⟩
+
+/-- the model of Go's `path.Clean` used by the driver is idempotent (C12's `clean_idem`) -/
+theorem pathClean_idempotent (s : String) : pathClean (pathClean s) = pathClean s := by
+  simp [pathClean, CV.Paths.clean_idem]
+
+/-- `Normalize` as the driver runs it (with `pathClean`): idempotent, no hypothesis about `path.Clean` left -/
+theorem normalize_idem_pathClean (env : Env) (henv : envLookup env "" = none) (d : KVs) :
+    normalizePure pathClean env (normalizePure pathClean env d) = normalizePure pathClean env d :=
+  normalizePure_idem pathClean pathClean_idempotent env henv d
+
+theorem implicit_eq_explicit_pathClean (env : Env) (henv : envLookup env "" = none) (d e : KVs)
+    (h : normalize pathClean env d = .ok e) : normalize pathClean env e = normalize pathClean env d := by
+  rw [h]; exact normalize_ok_fixed pathClean pathClean_idempotent env henv d e h
 
 example : envLookup [("FOO", "bar")] "" = none := by decide
 example : ∀ s, (id : String → String) (id s) = id s := fun _ => rfl
